@@ -138,7 +138,11 @@ func TestStoreSoak(t *testing.T) {
 		world := &gen.World{Authors: gen.Pubkeys(3)}
 		cfg := &gen.StoreCfg{World: world, TsBase: 1000}
 		p := storeParams{cfg: cfg}
-		switch rapid.SampledFrom([]string{"long-small", "long-small", "long-deletions", "large"}).Draw(t, "shape") {
+		shapes := []string{"long-small", "long-small", "long-deletions", "large"}
+		if os.Getenv("VERIF_FOCUS") == "C05" {
+			shapes = []string{"long-deletions", "long-deletions", "long-deletions", "long-small"}
+		}
+		switch rapid.SampledFrom(shapes).Draw(t, "shape") {
 		case "long-small":
 			p.capacity = rapid.IntRange(2, 9).Draw(t, "cap")
 			p.steps = rapid.IntRange(600, 1500).Draw(t, "steps")
@@ -181,6 +185,7 @@ func runStoreCase(t *rapid.T, c03, c04, c05 *ev.Collector, p storeParams) {
 		var history []*mocrelay.Event
 		var trace []storeStep
 		var pending []*mocrelay.Event
+		byID := map[string]*mocrelay.Event{}
 		left := 0 // events that have left the store so far
 		sawReplace, sawEvict, sawDeletionHit := false, false, false
 		c03nontriv := false
@@ -206,6 +211,24 @@ func runStoreCase(t *rapid.T, c03, c04, c05 *ev.Collector, p storeParams) {
 				op = 1
 			case op < 17:
 				e = rapid.SampledFrom(world.Events).Draw(t, "reoffer")
+				// half of the time: an event that a retained deletion request names (in a long
+				// history a uniform choice almost never hits one)
+				var named []*mocrelay.Event
+				for _, k := range s {
+					if k.Kind != 5 {
+						continue
+					}
+					for _, tg := range k.Tags {
+						if len(tg) >= 2 && tg[0] == "e" {
+							if x := byID[tg[1]]; x != nil {
+								named = append(named, x)
+							}
+						}
+					}
+				}
+				if len(named) > 0 && rapid.Bool().Draw(t, "reoffer_named") {
+					e = rapid.SampledFrom(named).Draw(t, "reoffer_named_which")
+				}
 				if rapid.Bool().Draw(t, "reofferclone") {
 					e = gen.CloneEvent(e)
 				}
@@ -262,6 +285,7 @@ func runStoreCase(t *rapid.T, c03, c04, c05 *ev.Collector, p storeParams) {
 
 			flag := cache.Add(e)
 			history = append(history, e)
+			byID[e.ID] = e
 			trace = append(trace, storeStep{Op: opName, Event: gen.Brief(e), Flag: flag})
 
 			s2, p := safeFind(cache, []*mocrelay.ReqFilter{{}})
